@@ -252,6 +252,17 @@ func (e *c21Engine) Exec(ops []string) []string {
 				ents[j] = myraft.Entry{Index: u(t[1]) + uint64(j), Term: it[0], Data: []byte{byte(it[1])}}
 			}
 			out[i] = guard(func() error { return s.ws.Append(ents) })
+		case "bigapp":
+			// one entry whose encoded record is larger than a whole WAL segment
+			items := parseItems(t[2])
+			data := make([]byte, walSegmentSize+(6<<10))
+			data[0] = byte(items[0][1])
+			ents := []myraft.Entry{{Index: u(t[1]), Term: items[0][0], Data: data}}
+			out[i] = guard(func() error { return s.ws.Append(ents) })
+		case "bigsnap":
+			snap := myraft.Snapshot{Data: make([]byte, walSegmentSize+(6<<10)),
+				Metadata: raftpb.SnapshotMetadata{Index: u(t[1]), Term: u(t[2]), ConfState: raftpb.ConfState{Voters: []uint64{1}}}}
+			out[i] = guard(func() error { return s.ws.ApplySnapshot(snap) })
 		case "snap":
 			snap := myraft.Snapshot{Metadata: raftpb.SnapshotMetadata{Index: u(t[1]), Term: u(t[2]), ConfState: raftpb.ConfState{Voters: []uint64{1}}}}
 			out[i] = guard(func() error { return s.ws.ApplySnapshot(snap) })
@@ -375,8 +386,26 @@ func (e *c21Engine) Gen(r *hlib.Rand, tier string) []string {
 			if retain > 0 && applied > retain && applied-retain > trunc && applied-retain <= last {
 				trunc = applied - retain
 			}
-		case x < 66:
+		case x < 64:
 			ops = append(ops, "other")
+		case x < 66:
+			// a record larger than the (64 KiB) segment: written whole into a fresh segment
+			if r.Chance(70) {
+				ops = append(ops, fmt.Sprintf("bigapp %d %s", last+1, genItems(r, term, 1)))
+				last++
+			} else {
+				idx := last + 1 + uint64(r.Intn(3))
+				ops = append(ops, fmt.Sprintf("bigsnap %d %d", idx, term))
+				if idx > snapIdx {
+					snapIdx, last, trunc = idx, idx, idx
+					if commit < idx {
+						commit = idx
+					}
+				}
+			}
+			if r.Chance(60) {
+				ops = append(ops, hlib.Pick(r, []string{"crash", "close"}), "state")
+			}
 		case x < 70:
 			// the next record will not fit: AppendRecords rotates inside its own loop
 			ops = append(ops, "fill")
@@ -433,7 +462,7 @@ func (e *c21Engine) Nontrivial(ops, impl, model, spec []string) bool {
 	persisted := false
 	for i, op := range ops {
 		k := strings.Fields(op)[0]
-		if (k == "hs" || k == "app" || k == "snap") && impl[i] == "ok" {
+		if (k == "hs" || k == "app" || k == "snap" || k == "bigapp" || k == "bigsnap") && impl[i] == "ok" {
 			persisted = true
 		}
 		if (k == "crash" || k == "close") && persisted && i+1 < len(ops) && strings.HasPrefix(ops[i+1], "state") {
